@@ -78,6 +78,11 @@ def run_programs(name, progs, scope, known, *, opts=None, kf_crosstalk="KF-K7-cr
                     br.known_hits.append({"id": "KF-C10-cse-duplicate-name-lost", "what": f"{pid}:{o['name']}"})
                     continue
                 o["status"] = "missing"
+            if o["status"] == "type-deviation-param":
+                if "KF-C15-inlined-result-type" in known:
+                    br.known_hits.append({"id": "KF-C15-inlined-result-type", "what": f"{pid}:{o['name']}"})
+                    continue
+                o["status"] = "mismatch"
             if o["status"] == "type-deviation":
                 if "KF-C01-comparison-result-type" in known:
                     br.known_hits.append({"id": "KF-C01-comparison-result-type", "what": f"{pid}:{o['name']}"})
